@@ -275,6 +275,42 @@ def contention_records(draw):
         {'gen': 'gen-contention', 'thr_units': thr_units})
 
 
+@st.composite
+def chain_records(draw):
+    """Storms and rises interleaved into a path: every inner storm overlaps
+    two rises and every rise bridges two storms, so deferred acceptance has
+    to reject and displace; the dry lead-in varies the storm start indices
+    (and with them the order in which Python's set hands out the storms)."""
+    dt, tz, t0 = draw(gen_records.header())
+    s, j, thr_units = gen_records.thresholds(draw, dt)
+    rain, incs = [], []
+    for _ in range(draw(st.integers(0, 17))):
+        rain.append(0.0)
+        incs.append(gen_records.inc_units(draw, 'fall', thr_units))
+    k = draw(st.integers(2, 5))
+    for i in range(k):
+        length = draw(st.integers(1, 5))
+        brk = draw(st.integers(0, length - 1))
+        for step in range(length):
+            rain.append(gen_records.rain_value(draw, 'heavy', s))
+            if step == brk and draw(st.integers(0, 4)) > 0:
+                incs.append(gen_records.inc_units(draw, 'small', thr_units))
+            else:
+                incs.append(gen_records.inc_units(draw, 'jump', thr_units))
+        for _ in range(draw(st.sampled_from([1, 1, 2]))):
+            rain.append(gen_records.rain_value(draw, 'drizzle', s))
+            incs.append(gen_records.inc_units(
+                draw, 'jump' if i < k - 1 else 'small', thr_units))
+    rain.append(0.0)
+    incs.append(-1)
+    z = [draw(st.integers(-100, 100))]
+    for inc in incs:
+        z.append(z[-1] + inc)
+    return gen_records.assemble(
+        dt, t0, tz, rain, z, 0, [], [], set(), [0.125], s, j,
+        {'gen': 'gen-chain', 'thr_units': thr_units})
+
+
 def check_records(case):
     s, j = case['s'], case['j']
     connection = cc.load_or_reject(case)
@@ -362,7 +398,12 @@ PARTS = [
          describe='disambiguate_matching on interval geometry'),
     Part('records', check_records,
          strategy=lambda tier: st.one_of(
-             contention_records(), gen_records.free_records(allow_gaps=True)),
+             contention_records(), chain_records(),
+             gen_records.free_records(allow_gaps=True)),
          budget={'quick': 100, 'thorough': 1500},
          describe='classify on contention-rich records'),
+    Part('fsm_fuzz', check_fsm, fuzz_of='fsm_random', fuzz_runs=60000,
+         shards={'quick': 0, 'thorough': 4},
+         describe='atheris campaign over find_stable_matching instances '
+                  '(thorough tier only)'),
 ]
